@@ -367,3 +367,76 @@ func OneShot(kind string, b *B, asserts []*Term, timeoutMs int) (Result, string)
 	}
 	return Unknown, txt
 }
+
+// OneShotValues is OneShot with model values for want (on sat).
+func OneShotValues(kind string, b *B, asserts []*Term, want []*Term, timeoutMs int) (Result, []uint64, string) {
+	roots := append(append([]*Term{}, asserts...), want...)
+	script, names := b.Script(roots)
+	var sb strings.Builder
+	if !strings.HasPrefix(kind, "z3") {
+		sb.WriteString("(set-option :produce-models true)\n(set-logic ALL)\n")
+	}
+	sb.WriteString(script)
+	for i := range asserts {
+		sb.WriteString("(assert " + names[i] + ")\n")
+	}
+	sb.WriteString("(check-sat)\n")
+	if len(want) > 0 {
+		sb.WriteString("(get-value (")
+		for i := range want {
+			sb.WriteString(names[len(asserts)+i] + " ")
+		}
+		sb.WriteString("))\n")
+	}
+	var argv []string
+	switch kind {
+	case "z3":
+		argv = []string{"z3", "-in", fmt.Sprintf("-t:%d", timeoutMs)}
+	case "z3-new":
+		argv = []string{"z3-new", "-in", fmt.Sprintf("-t:%d", timeoutMs)}
+	case "cvc5":
+		argv = []string{"cvc5", "--lang=smt2", fmt.Sprintf("--tlimit=%d", timeoutMs)}
+	case "cvc5-int":
+		argv = []string{"cvc5", "--lang=smt2", "--solve-bv-as-int=sum", fmt.Sprintf("--tlimit=%d", timeoutMs)}
+	default:
+		return Unknown, nil, "unknown solver kind " + kind
+	}
+	cmd := exec.Command(argv[0], argv[1:]...)
+	cmd.Stdin = strings.NewReader(sb.String())
+	done := make(chan struct{})
+	var out []byte
+	go func() { out, _ = cmd.CombinedOutput(); close(done) }()
+	select {
+	case <-done:
+	case <-time.After(time.Duration(timeoutMs)*time.Millisecond + 10*time.Second):
+		if cmd.Process != nil {
+			cmd.Process.Kill()
+		}
+		<-done
+		return Unknown, nil, "wall timeout"
+	}
+	txt := strings.TrimSpace(string(out))
+	lines := strings.Split(txt, "\n")
+	verdict := strings.TrimSpace(lines[0])
+	switch verdict {
+	case "unsat":
+		if strings.Contains(lines[0], "(error") {
+			return Unknown, nil, txt
+		}
+		return Unsat, nil, txt
+	case "sat":
+		if len(want) == 0 {
+			return Sat, nil, txt
+		}
+		rest := strings.Join(lines[1:], " ")
+		if strings.Contains(rest, "(error") {
+			return Unknown, nil, txt
+		}
+		vals := parseValues(rest, len(want))
+		if vals == nil {
+			return Unknown, nil, "get-value parse: " + txt
+		}
+		return Sat, vals, txt
+	}
+	return Unknown, nil, txt
+}
